@@ -59,7 +59,8 @@ def consequent_semantics(check: Check, rule: str = "M-sem", aspects: tuple[str, 
 
     def new_exec(decide: Any = None) -> tuple[AbsExec, Any]:
         ex = AbsExec(fn.qualname, {**({"decide": decide} if decide is not None else {}), "method:hedge": lambda ex_, e, recv, args, kw: App(f"hedge:{recv.fields['name']}", (freeze(args[0]),))
-                                   if isinstance(recv, MObj) and recv.cls == "Hedge" else (_ for _ in ()).throw(Unknown("hedge() on something that is not a hedge"))})
+                                   if isinstance(recv, MObj) and recv.cls == "Hedge" else (_ for _ in ()).throw(Unknown("hedge() on something that is not a hedge"))},
+                     helpers={k: v for k, v in fn.cls.methods.items() if k not in ("modify", "load", "unload", "__init__")})
         construct, init = _activated_factory(p, ex.properties)
         ex.globals = {"np": NP, "Activated": construct, "OutputVariable": ("class", "OutputVariable"), "InputVariable": ("class", "InputVariable"),
                       "scalar": lambda ex_, e, args, kw: args[0], "array": lambda ex_, e, args, kw: args[0], "Scalar": Opaque("type"),
